@@ -1,0 +1,286 @@
+//go:build verif
+
+package kvql
+
+// Contracts for the vector (batch) evaluator, expression_exec_vec.go (property C03): every
+// vector form is proved against the same meaning as its row twin - element i of the result is the
+// value the expression has on pair i, and a batch that completes means every row evaluates.
+// Comment-only.
+//
+//@ define ck(chunk []KVPair, i Int) B = val(chunk[i].Key)
+//@ define cv(chunk []KVPair, i Int) B = val(chunk[i].Value)
+//@ define rowsOf(x Expression, chunk []KVPair, ret []any) Bool = len(ret) == len(chunk) && (forall i Int :: 0 <= i && i < len(chunk) ==> evalok(x, ck(chunk, i), cv(chunk, i)) && ret[i] == evalv(x, ck(chunk, i), cv(chunk, i)))
+//
+//@ iface (e Expression) ExecuteBatch(chunk []KVPair, ctx *ExecuteCtx) (ret []any, err error)
+//@   requires e != nil
+//@   assigns ctx.Hit, mapof(ctx.FieldCaches), mapof(ctx.FieldChunkKeyCaches), mapof(ctx.FieldChunkCaches)
+//@   ensures[C03] same: err == nil ==> rowsOf(e, chunk, ret)
+//@   ensures own: err == nil ==> isnil(ret) || fresh(ret)
+//
+// Literals, key and value.
+//@ func (e *NumberExpr) ExecuteBatch(chunk []KVPair, ctx *ExecuteCtx) (ret []any, err error) implements Expression.ExecuteBatch
+//@   props C03
+//@   use forall i Int :: ev_lit(e, ck(chunk, i), cv(chunk, i))
+//@   loop 0
+//@     invariant 0 <= i && i <= len(chunk) && len(ret) == len(chunk) && fresh(ret)
+//@     invariant forall j Int :: 0 <= j && j < i ==> ret[j] == AInt(e.Int)
+//@ func (e *FloatExpr) ExecuteBatch(chunk []KVPair, ctx *ExecuteCtx) (ret []any, err error) implements Expression.ExecuteBatch
+//@   props C03
+//@   use forall i Int :: ev_lit(e, ck(chunk, i), cv(chunk, i))
+//@   loop 0
+//@     invariant 0 <= i && i <= len(chunk) && len(ret) == len(chunk) && fresh(ret)
+//@     invariant forall j Int :: 0 <= j && j < i ==> ret[j] == AFlt(e.Float)
+//@ func (e *BoolExpr) ExecuteBatch(chunk []KVPair, ctx *ExecuteCtx) (ret []any, err error) implements Expression.ExecuteBatch
+//@   props C03
+//@   use forall i Int :: ev_lit(e, ck(chunk, i), cv(chunk, i))
+//@   loop 0
+//@     invariant 0 <= i && i <= len(chunk) && len(ret) == len(chunk) && fresh(ret)
+//@     invariant forall j Int :: 0 <= j && j < i ==> ret[j] == ABool(e.Bool)
+//@ func (e *StringExpr) ExecuteBatch(chunk []KVPair, ctx *ExecuteCtx) (ret []any, err error) implements Expression.ExecuteBatch
+//@   props C03
+//@   use forall i Int :: ev_lit(e, ck(chunk, i), cv(chunk, i))
+//@   loop 0
+//@     invariant 0 <= i && i <= len(chunk) && len(ret) == len(chunk) && fresh(ret)
+//@     invariant forall j Int :: 0 <= j && j < i ==> ret[j] == ABytes(e.Data)
+//@ func (e *FieldExpr) ExecuteBatch(chunk []KVPair, ctx *ExecuteCtx) (ret []any, err error) implements Expression.ExecuteBatch
+//@   props C03
+//@   use forall i Int :: ev_field(e, ck(chunk, i), cv(chunk, i))
+//@   ensures[C03] fields: err == nil ==> len(ret) == len(chunk) && (forall i Int :: 0 <= i && i < len(chunk) ==> isbytes(ret[i]) && textOf(ret[i]) == ite(e.Field == KeyKW, ck(chunk, i), cv(chunk, i)))
+//@   ifaceassumed same
+//@   loop 0
+//@     invariant 0 <= i && i <= len(chunk) && len(ret) == len(chunk) && fresh(ret) && (e.Field == KeyKW || e.Field == ValueKW) && isKey == (e.Field == KeyKW)
+//@     invariant forall j Int :: 0 <= j && j < i ==> isbytes(ret[j]) && textOf(ret[j]) == ite(e.Field == KeyKW, ck(chunk, j), cv(chunk, j))
+//
+//@ func (e *NotExpr) ExecuteBatch(chunk []KVPair, ctx *ExecuteCtx) (ret []any, err error) implements Expression.ExecuteBatch
+//@   props C03
+//@   requires e.Right != nil
+//@   use forall i Int :: doc_not(e, chunk[i])
+//@   loop 0
+//@     invariant 0 <= i && i <= len(chunk) && len(right) == len(chunk) && (isnil(right) || fresh(right))
+//@     invariant forall j Int :: 0 <= j && j < len(chunk) ==> evalok(e.Right, ck(chunk, j), cv(chunk, j))
+//@     invariant forall j Int :: i <= j && j < len(chunk) ==> right[j] == evalv(e.Right, ck(chunk, j), cv(chunk, j))
+//@     invariant forall j Int :: 0 <= j && j < i ==> isbool(evalv(e.Right, ck(chunk, j), cv(chunk, j))) && right[j] == ABool(!bval(evalv(e.Right, ck(chunk, j), cv(chunk, j))))
+//
+// Binary operators: the operands are evaluated for the whole chunk, then combined row by row.
+//@ define lokI(e *BinaryOpExpr, c []KVPair, i Int) Bool = evalok(e.Left, ck(c, i), cv(c, i))
+//@ define rokI(e *BinaryOpExpr, c []KVPair, i Int) Bool = evalok(e.Right, ck(c, i), cv(c, i))
+//@ define lvI(e *BinaryOpExpr, c []KVPair, i Int) Any = evalv(e.Left, ck(c, i), cv(c, i))
+//@ define rvI(e *BinaryOpExpr, c []KVPair, i Int) Any = evalv(e.Right, ck(c, i), cv(c, i))
+//@ define bothOk(e *BinaryOpExpr, c []KVPair) Bool = forall j Int :: 0 <= j && j < len(c) ==> lokI(e, c, j) && rokI(e, c, j)
+//
+//@ func (e *BinaryOpExpr) execEqualBatch(chunk []KVPair, not bool, ctx *ExecuteCtx) (ret []any, err error)
+//@   props C03
+//@   requires wfBin(e)
+//@   assigns ctx.Hit, mapof(ctx.FieldCaches), mapof(ctx.FieldChunkKeyCaches), mapof(ctx.FieldChunkCaches)
+//@   ensures[C03] same: err == nil ==> len(ret) == len(chunk) && (forall i Int :: 0 <= i && i < len(chunk) ==> lokI(e, chunk, i) && rokI(e, chunk, i) && eqKinds(lvI(e, chunk, i), rvI(e, chunk, i)) && ret[i] == ABool(ite(not, !eqVal(lvI(e, chunk, i), rvI(e, chunk, i)), eqVal(lvI(e, chunk, i), rvI(e, chunk, i)))))
+//@   ensures own: err == nil ==> isnil(ret) || fresh(ret)
+//@   loop 0
+//@     invariant 0 <= i && i <= len(chunk) && len(rleft) == len(chunk) && len(rright) == len(chunk) && fresh(rleft) && (isnil(rright) || fresh(rright)) && ptr(rleft) != ptr(rright) && bothOk(e, chunk)
+//@     invariant (isStr || isInt || isBool) && !(isStr && isInt) && !(isStr && isBool) && !(isInt && isBool)
+//@     invariant forall j Int :: 0 <= j && j < len(chunk) ==> rright[j] == rvI(e, chunk, j)
+//@     invariant forall j Int :: i <= j && j < len(chunk) ==> rleft[j] == lvI(e, chunk, j)
+//@     invariant forall j Int :: 0 <= j && j < i ==> eqKinds(lvI(e, chunk, j), rvI(e, chunk, j)) && rleft[j] == ABool(ite(not, !eqVal(lvI(e, chunk, j), rvI(e, chunk, j)), eqVal(lvI(e, chunk, j), rvI(e, chunk, j))))
+//@     invariant forall j Int :: 0 <= j && j < i ==> ite(isStr, isText(lvI(e, chunk, j)), ite(isInt, isInt(lvI(e, chunk, j)), isbool(lvI(e, chunk, j))))
+//
+//@ func (e *BinaryOpExpr) execPrefixMatchBatch(chunk []KVPair, ctx *ExecuteCtx) (ret []any, err error)
+//@   props C03
+//@   requires wfBin(e)
+//@   assigns ctx.Hit, mapof(ctx.FieldCaches), mapof(ctx.FieldChunkKeyCaches), mapof(ctx.FieldChunkCaches)
+//@   ensures[C03] same: err == nil ==> len(ret) == len(chunk) && (forall i Int :: 0 <= i && i < len(chunk) ==> lokI(e, chunk, i) && rokI(e, chunk, i) && isText(lvI(e, chunk, i)) && isText(rvI(e, chunk, i)) && ret[i] == ABool(pre(textOf(rvI(e, chunk, i)), textOf(lvI(e, chunk, i)))))
+//@   ensures own: err == nil ==> isnil(ret) || fresh(ret)
+//@   loop 0
+//@     invariant 0 <= i && i <= len(chunk) && len(rleft) == len(chunk) && len(rright) == len(chunk) && (isnil(rleft) || fresh(rleft)) && (isnil(rright) || fresh(rright)) && (len(chunk) > 0 ==> ptr(rleft) != ptr(rright)) && bothOk(e, chunk)
+//@     invariant forall j Int :: 0 <= j && j < len(chunk) ==> rright[j] == rvI(e, chunk, j)
+//@     invariant forall j Int :: i <= j && j < len(chunk) ==> rleft[j] == lvI(e, chunk, j)
+//@     invariant forall j Int :: 0 <= j && j < i ==> isText(lvI(e, chunk, j)) && isText(rvI(e, chunk, j)) && rleft[j] == ABool(pre(textOf(rvI(e, chunk, j)), textOf(lvI(e, chunk, j))))
+//
+// The vector form of & and | evaluates both operands for the whole chunk (no short cut): it
+// completes only if the right operand evaluates on every row, and then agrees with the row form.
+//@ func (e *BinaryOpExpr) execAndOrBatch(chunk []KVPair, and bool, ctx *ExecuteCtx) (ret []any, err error)
+//@   props C03
+//@   requires wfBin(e)
+//@   assigns ctx.Hit, mapof(ctx.FieldCaches), mapof(ctx.FieldChunkKeyCaches), mapof(ctx.FieldChunkCaches)
+//@   ensures[C03] same: err == nil ==> len(ret) == len(chunk) && (forall i Int :: 0 <= i && i < len(chunk) ==> lokI(e, chunk, i) && rokI(e, chunk, i) && isbool(lvI(e, chunk, i)) && isbool(rvI(e, chunk, i)) && ret[i] == ABool(ite(and, bval(lvI(e, chunk, i)) && bval(rvI(e, chunk, i)), bval(lvI(e, chunk, i)) || bval(rvI(e, chunk, i)))))
+//@   ensures own: err == nil ==> isnil(ret) || fresh(ret)
+//@   loop 0
+//@     invariant 0 <= i && i <= len(chunk) && len(rleft) == len(chunk) && len(rright) == len(chunk) && (isnil(rleft) || fresh(rleft)) && (isnil(rright) || fresh(rright)) && (len(chunk) > 0 ==> ptr(rleft) != ptr(rright)) && bothOk(e, chunk)
+//@     invariant forall j Int :: 0 <= j && j < len(chunk) ==> rright[j] == rvI(e, chunk, j)
+//@     invariant forall j Int :: i <= j && j < len(chunk) ==> rleft[j] == lvI(e, chunk, j)
+//@     invariant forall j Int :: 0 <= j && j < i ==> isbool(lvI(e, chunk, j)) && isbool(rvI(e, chunk, j)) && rleft[j] == ABool(ite(and, bval(lvI(e, chunk, j)) && bval(rvI(e, chunk, j)), bval(lvI(e, chunk, j)) || bval(rvI(e, chunk, j))))
+//
+//@ func (e *BinaryOpExpr) execMathBatch(chunk []KVPair, op byte, ctx *ExecuteCtx) (ret []any, err error)
+//@   props C03
+//@   requires wfBin(e) && mathOp(op)
+//@   assigns ctx.Hit, mapof(ctx.FieldCaches), mapof(ctx.FieldChunkKeyCaches), mapof(ctx.FieldChunkCaches)
+//@   ensures[C03] same: err == nil ==> len(ret) == len(chunk) && (forall i Int :: 0 <= i && i < len(chunk) ==> lokI(e, chunk, i) && rokI(e, chunk, i) && isNum(lvI(e, chunk, i)) && isNum(rvI(e, chunk, i)) && !divByZero(op, rvI(e, chunk, i)) && ret[i] == ite(isInt(lvI(e, chunk, i)) && isInt(rvI(e, chunk, i)), AInt(intOp(op, intof(lvI(e, chunk, i)), intof(rvI(e, chunk, i)))), AFlt(fltOp(op, numOf(lvI(e, chunk, i)), numOf(rvI(e, chunk, i))))))
+//@   ensures own: err == nil ==> isnil(ret) || fresh(ret)
+//@   loop 0
+//@     invariant 0 <= i && i <= len(chunk) && len(rleft) == len(chunk) && len(rright) == len(chunk) && (isnil(rleft) || fresh(rleft)) && (isnil(rright) || fresh(rright)) && (len(chunk) > 0 ==> ptr(rleft) != ptr(rright)) && bothOk(e, chunk)
+//@     invariant forall j Int :: 0 <= j && j < len(chunk) ==> rright[j] == rvI(e, chunk, j)
+//@     invariant forall j Int :: i <= j && j < len(chunk) ==> rleft[j] == lvI(e, chunk, j)
+//@     invariant forall j Int :: 0 <= j && j < i ==> isNum(lvI(e, chunk, j)) && isNum(rvI(e, chunk, j)) && !divByZero(op, rvI(e, chunk, j)) && rleft[j] == ite(isInt(lvI(e, chunk, j)) && isInt(rvI(e, chunk, j)), AInt(intOp(op, intof(lvI(e, chunk, j)), intof(rvI(e, chunk, j)))), AFlt(fltOp(op, numOf(lvI(e, chunk, j)), numOf(rvI(e, chunk, j)))))
+//
+//@ func (e *BinaryOpExpr) execNumberCompareBatch(chunk []KVPair, op string, ctx *ExecuteCtx) (ret []any, err error)
+//@   props C03
+//@   requires wfBin(e) && relOp(val(op))
+//@   assigns ctx.Hit, mapof(ctx.FieldCaches), mapof(ctx.FieldChunkKeyCaches), mapof(ctx.FieldChunkCaches)
+//@   ensures[C03] same: err == nil ==> len(ret) == len(chunk) && (forall i Int :: 0 <= i && i < len(chunk) ==> lokI(e, chunk, i) && rokI(e, chunk, i) && isNum(lvI(e, chunk, i)) && isNum(rvI(e, chunk, i)) && ret[i] == ABool(ite(isInt(lvI(e, chunk, i)) && isInt(rvI(e, chunk, i)), intHolds(val(op), intof(lvI(e, chunk, i)), intof(rvI(e, chunk, i))), fltHolds(val(op), numOf(lvI(e, chunk, i)), numOf(rvI(e, chunk, i))))))
+//@   ensures own: err == nil ==> isnil(ret) || fresh(ret)
+//@   loop 0
+//@     invariant 0 <= i && i <= len(chunk) && len(rleft) == len(chunk) && len(rright) == len(chunk) && (isnil(rleft) || fresh(rleft)) && (isnil(rright) || fresh(rright)) && (len(chunk) > 0 ==> ptr(rleft) != ptr(rright)) && bothOk(e, chunk)
+//@     invariant forall j Int :: 0 <= j && j < len(chunk) ==> rright[j] == rvI(e, chunk, j)
+//@     invariant forall j Int :: i <= j && j < len(chunk) ==> rleft[j] == lvI(e, chunk, j)
+//@     invariant forall j Int :: 0 <= j && j < i ==> isNum(lvI(e, chunk, j)) && isNum(rvI(e, chunk, j)) && rleft[j] == ABool(ite(isInt(lvI(e, chunk, j)) && isInt(rvI(e, chunk, j)), intHolds(val(op), intof(lvI(e, chunk, j)), intof(rvI(e, chunk, j))), fltHolds(val(op), numOf(lvI(e, chunk, j)), numOf(rvI(e, chunk, j)))))
+//
+//@ func (e *BinaryOpExpr) execStringCompareBatch(chunk []KVPair, op string, ctx *ExecuteCtx) (ret []any, err error)
+//@   props C03
+//@   requires wfBin(e) && relOp(val(op))
+//@   assigns ctx.Hit, mapof(ctx.FieldCaches), mapof(ctx.FieldChunkKeyCaches), mapof(ctx.FieldChunkCaches)
+//@   ensures[C03] same: err == nil ==> len(ret) == len(chunk) && (forall i Int :: 0 <= i && i < len(chunk) ==> lokI(e, chunk, i) && rokI(e, chunk, i) && isText(lvI(e, chunk, i)) && isText(rvI(e, chunk, i)) && ret[i] == ABool(cmpHolds(val(op), cmp(textOf(lvI(e, chunk, i)), textOf(rvI(e, chunk, i))))))
+//@   ensures own: err == nil ==> isnil(ret) || fresh(ret)
+//@   loop 0
+//@     invariant 0 <= i && i <= len(chunk) && len(rleft) == len(chunk) && len(rright) == len(chunk) && (isnil(rleft) || fresh(rleft)) && (isnil(rright) || fresh(rright)) && (len(chunk) > 0 ==> ptr(rleft) != ptr(rright)) && bothOk(e, chunk)
+//@     invariant forall j Int :: 0 <= j && j < len(chunk) ==> rright[j] == rvI(e, chunk, j)
+//@     invariant forall j Int :: i <= j && j < len(chunk) ==> rleft[j] == lvI(e, chunk, j)
+//@     invariant forall j Int :: 0 <= j && j < i ==> isText(lvI(e, chunk, j)) && isText(rvI(e, chunk, j)) && rleft[j] == ABool(cmpHolds(val(op), cmp(textOf(lvI(e, chunk, j)), textOf(rvI(e, chunk, j)))))
+//
+// Not yet verified (thin assumed contracts: frame and ownership only).
+//@ func (e *BinaryOpExpr) execRegexpMatchBatch(chunk []KVPair, ctx *ExecuteCtx) (ret []any, err error)
+//@   trusted thin contract (frame only), body not yet verified
+//@   requires wfBin(e)
+//@   assigns ctx.Hit, mapof(ctx.FieldCaches), mapof(ctx.FieldChunkKeyCaches), mapof(ctx.FieldChunkCaches)
+//@   ensures own: err == nil ==> isnil(ret) || fresh(ret)
+//@ func (e *BinaryOpExpr) execInBatch(chunk []KVPair, number bool, ctx *ExecuteCtx) (ret []any, err error)
+//@   trusted thin contract (frame only), body not yet verified
+//@   requires wfBin(e)
+//@   assigns ctx.Hit, mapof(ctx.FieldCaches), mapof(ctx.FieldChunkKeyCaches), mapof(ctx.FieldChunkCaches)
+//@   ensures own: err == nil ==> isnil(ret) || fresh(ret)
+//@ func (e *BinaryOpExpr) execBetweenBatch(chunk []KVPair, number bool, ctx *ExecuteCtx) (ret []any, err error)
+//@   trusted thin contract (frame only), body not yet verified
+//@   requires wfBin(e)
+//@   assigns ctx.Hit, mapof(ctx.FieldCaches), mapof(ctx.FieldChunkKeyCaches), mapof(ctx.FieldChunkCaches)
+//@   ensures own: err == nil ==> isnil(ret) || fresh(ret)
+//@ func (e *BinaryOpExpr) execStringConcateBatch(chunk []KVPair, ctx *ExecuteCtx) (ret []any, err error)
+//@   trusted thin contract (frame only), body not yet verified
+//@   requires wfBin(e)
+//@   assigns ctx.Hit, mapof(ctx.FieldCaches), mapof(ctx.FieldChunkKeyCaches), mapof(ctx.FieldChunkCaches)
+//@   ensures own: err == nil ==> isnil(ret) || fresh(ret)
+//
+// The vector form of a binary node agrees with the documented meaning (doc_bin) row by row, for
+// the operators whose helpers are proved above.
+//@ define provedOp(e *BinaryOpExpr) Bool = e.Op == Eq || e.Op == NotEq || e.Op == PrefixMatch || e.Op == And || e.Op == KWAnd || e.Op == Or || e.Op == KWOr || isOrderOp(e.Op) || e.Op == Sub || e.Op == Mul || e.Op == Div || (e.Op == Add && rtype(e.Left) != TSTR)
+//@ func (e *BinaryOpExpr) ExecuteBatch(chunk []KVPair, ctx *ExecuteCtx) (ret []any, err error) implements Expression.ExecuteBatch
+//@   props C03
+//@   ifaceassumed same
+//@   requires wfBin(e)
+//@   use forall i Int :: doc_bin(e, chunk[i])
+//@   ensures[C03] twin: err == nil && provedOp(e) ==> rowsOf(e, chunk, ret)
+//
+// Function calls: both forms look the function up and must accept exactly the same argument
+// counts before running its body.
+//@ specfun scalarFn(Int) Int
+//@ define arityOK(f *Function, n Int) Bool = (!f.VarArgs ==> n == f.NumArgs) && (f.VarArgs ==> n >= f.NumArgs)
+//@ func GetScalarFunction(expr Expression) (f *Function, err error)
+//@   trusted thin contract (the registry lookup names its result; body reads the shared function table)
+//@   requires expr != nil
+//@   assigns nothing
+//@   ensures err == nil ==> f != nil && f == scalarFn(expr)
+//
+//@ func (e *FunctionCallExpr) executeFunc(kv KVPair, funcObj *Function, ctx *ExecuteCtx) (ret any, err error)
+//@   props C03
+//@   requires e != nil && funcObj != nil && funcObj.Body != nil
+//@   assigns ctx.Hit, mapof(ctx.FieldCaches), mapof(ctx.FieldChunkKeyCaches), mapof(ctx.FieldChunkCaches), allof(FunctionCallExpr.Result)
+//@   ensures[C03] arity: err == nil ==> arityOK(funcObj, len(e.Args))
+//
+//@ func (e *FunctionCallExpr) executeFuncBatch(funcObj *Function, chunk []KVPair, ctx *ExecuteCtx) (ret []any, err error)
+//@   trusted thin contract (frame only): the registered bodies are called through function values
+//@   requires e != nil && funcObj != nil
+//@   assigns ctx.Hit, mapof(ctx.FieldCaches), mapof(ctx.FieldChunkKeyCaches), mapof(ctx.FieldChunkCaches), allof(FunctionCallExpr.Result)
+//
+//@ func (e *FunctionCallExpr) ExecuteBatch(chunk []KVPair, ctx *ExecuteCtx) (ret []any, err error)
+//@   props C03
+//@   requires e != nil
+//@   assigns ctx.Hit, mapof(ctx.FieldCaches), mapof(ctx.FieldChunkKeyCaches), mapof(ctx.FieldChunkCaches), allof(FunctionCallExpr.Result)
+//@   ensures[C03] arity: err == nil && e.Result == nil ==> arityOK(scalarFn(e), len(e.Args))
+//@   loop 0
+//@     invariant 0 <= i && i <= len(chunk) && len(ret) == len(chunk) && fresh(ret)
+//
+// The registered function bodies (called through function values): frame only.
+//@ functype FunctionBody(body FunctionBody, kv KVPair, args []Expression, ctx *ExecuteCtx) (ret any, err error)
+//@   assigns ctx.Hit, mapof(ctx.FieldCaches), mapof(ctx.FieldChunkKeyCaches), mapof(ctx.FieldChunkCaches), allof(FunctionCallExpr.Result)
+//@ functype VectorFunctionBody(body VectorFunctionBody, chunk []KVPair, args []Expression, ctx *ExecuteCtx) (ret []any, err error)
+//@   assigns ctx.Hit, mapof(ctx.FieldCaches), mapof(ctx.FieldChunkKeyCaches), mapof(ctx.FieldChunkCaches), allof(FunctionCallExpr.Result)
+//
+// The filter on a chunk: the same verdicts as the row filter gives pair by pair.
+//@ func (e *FilterExec) filterChunk(chunk []KVPair, ctx *ExecuteCtx) (ret []bool, err error)
+//@   props C03
+//@   requires wfFilter(e)
+//@   assigns ctx.Hit, mapof(ctx.FieldCaches), mapof(ctx.FieldChunkKeyCaches), mapof(ctx.FieldChunkCaches)
+//@   ensures[C03] twin: err == nil ==> len(ret) == len(chunk) && (forall i Int :: 0 <= i && i < len(chunk) ==> evOk(fexpr(e), ck(chunk, i), cv(chunk, i)) && ret[i] == passes(e, ck(chunk, i), cv(chunk, i)))
+//@   loop 0
+//@     invariant 0 <= i && i <= len(result) && len(ret) == len(result) && len(result) == len(chunk) && fresh(ret) && (isnil(result) || fresh(result)) && (len(chunk) > 0 ==> ptr(ret) != ptr(result))
+//@     invariant forall j Int :: 0 <= j && j < len(chunk) ==> evalok(fexpr(e), ck(chunk, j), cv(chunk, j)) && result[j] == evalv(fexpr(e), ck(chunk, j), cv(chunk, j))
+//@     invariant forall j Int :: 0 <= j && j < i ==> isbool(result[j]) && ret[j] == bval(result[j])
+//
+//@ func (e *FilterExec) FilterBatch(chunk []KVPair, ctx *ExecuteCtx) (ret []bool, err error)
+//@   props C03
+//@   requires wfFilter(e)
+//@   assigns ctx.Hit, mapof(ctx.FieldCaches), mapof(ctx.FieldChunkKeyCaches), mapof(ctx.FieldChunkCaches)
+//@   ensures[C03] twin: err == nil ==> len(ret) == len(chunk) && (forall i Int :: 0 <= i && i < len(chunk) ==> evOk(fexpr(e), ck(chunk, i), cv(chunk, i)) && ret[i] == passes(e, ck(chunk, i), cv(chunk, i)))
+//
+// Batch scans: chooseIdxes lists, in ascending order, the positions (within everything filtered
+// in this call) of the pairs that are returned; AdjustChunkCache re-indexes the chunk caches by it.
+//@ define ascIdx(idx []int, bound Int) Bool = (forall j Int :: 0 <= j && j < len(idx) ==> 0 <= idx[j] && idx[j] < bound) && (forall j Int :: 0 <= j && j + 1 < len(idx) ==> idx[j] < idx[j + 1])
+//@ func (c *ExecuteCtx) AdjustChunkCache(chooseIdxes []int)
+//@   trusted thin contract (frame and the shape of its argument), body not yet verified
+//@   requires c != nil
+//@   requires[C03] asc: forall j Int :: 0 <= j && j + 1 < len(chooseIdxes) ==> chooseIdxes[j] < chooseIdxes[j + 1]
+//@   assigns mapof(c.FieldChunkCaches)
+//
+//@ func (p *FullScanPlan) Batch(ctx *ExecuteCtx) (ret []KVPair, err error)
+//@   props C03
+//@   requires p != nil && wfFilter(p.Filter) && wfCur(p.iter) && !failed && ctx != nil && PlanBatchSize > 0
+//@   assigns cpos(p.iter), nops, failed, lastErr, ctx.Hit, mapof(ctx.FieldCaches), mapof(ctx.FieldChunkKeyCaches), mapof(ctx.FieldChunkCaches)
+//@   loop 0
+//@     invariant wfCur(p.iter) && !failed && count >= 0 && len(ret) == count && len(chooseIdxes) == count && bidx >= 0 && fresh(ret) && fresh(chooseIdxes) && fresh(filterBatch) && ascIdx(chooseIdxes, bidx)
+//@   loop 1
+//@     invariant wfCur(p.iter) && !failed && 0 <= i && i <= PlanBatchSize && len(filterBatch) <= i && fresh(filterBatch)
+//@     invariant count >= 0 && len(ret) == count && len(chooseIdxes) == count && bidx >= 0 && fresh(ret) && fresh(chooseIdxes) && ascIdx(chooseIdxes, bidx)
+//@   loop 2
+//@     invariant count >= 0 && len(ret) == count && len(chooseIdxes) == count && bidx >= 0 && fresh(ret) && fresh(chooseIdxes) && ascIdx(chooseIdxes, bidx) && len(matchs) == len(filterBatch)
+//
+//@ func (p *PrefixScanPlan) Batch(ctx *ExecuteCtx) (ret []KVPair, err error)
+//@   props C03
+//@   requires p != nil && wfFilter(p.Filter) && wfCur(p.iter) && !failed && ctx != nil && PlanBatchSize > 0
+//@   assigns cpos(p.iter), nops, failed, lastErr, ctx.Hit, mapof(ctx.FieldCaches), mapof(ctx.FieldChunkKeyCaches), mapof(ctx.FieldChunkCaches)
+//@   loop 0
+//@     invariant wfCur(p.iter) && !failed && count >= 0 && len(ret) == count && len(chooseIdxes) == count && bidx >= 0 && fresh(ret) && fresh(chooseIdxes) && fresh(filterBatch) && ascIdx(chooseIdxes, bidx)
+//@   loop 1
+//@     invariant wfCur(p.iter) && !failed && 0 <= i && i <= PlanBatchSize && len(filterBatch) <= i && fresh(filterBatch)
+//@     invariant count >= 0 && len(ret) == count && len(chooseIdxes) == count && bidx >= 0 && fresh(ret) && fresh(chooseIdxes) && ascIdx(chooseIdxes, bidx)
+//@   loop 2
+//@     invariant count >= 0 && len(ret) == count && len(chooseIdxes) == count && bidx >= 0 && fresh(ret) && fresh(chooseIdxes) && ascIdx(chooseIdxes, bidx) && len(matchs) == len(filterBatch)
+//
+//@ func (p *RangeScanPlan) Batch(ctx *ExecuteCtx) (ret []KVPair, err error)
+//@   props C03
+//@   requires p != nil && wfFilter(p.Filter) && wfCur(p.iter) && !failed && ctx != nil && PlanBatchSize > 0
+//@   assigns cpos(p.iter), nops, failed, lastErr, ctx.Hit, mapof(ctx.FieldCaches), mapof(ctx.FieldChunkKeyCaches), mapof(ctx.FieldChunkCaches)
+//@   loop 0
+//@     invariant wfCur(p.iter) && !failed && count >= 0 && len(ret) == count && len(chooseIdxes) == count && bidx >= 0 && fresh(ret) && fresh(chooseIdxes) && fresh(filterBatch) && ascIdx(chooseIdxes, bidx)
+//@   loop 1
+//@     invariant wfCur(p.iter) && !failed && 0 <= i && i <= PlanBatchSize && len(filterBatch) <= i && fresh(filterBatch)
+//@     invariant count >= 0 && len(ret) == count && len(chooseIdxes) == count && bidx >= 0 && fresh(ret) && fresh(chooseIdxes) && ascIdx(chooseIdxes, bidx)
+//@   loop 2
+//@     invariant count >= 0 && len(ret) == count && len(chooseIdxes) == count && bidx >= 0 && fresh(ret) && fresh(chooseIdxes) && ascIdx(chooseIdxes, bidx) && len(matchs) == len(filterBatch)
+//
+//@ func (p *MultiGetPlan) Batch(ctx *ExecuteCtx) (ret []KVPair, err error)
+//@   props C03
+//@   requires wfMGet(p) && !failed && ctx != nil && PlanBatchSize > 0
+//@   assigns p.idx, nops, failed, lastErr, lastGet, ctx.Hit, mapof(ctx.FieldCaches), mapof(ctx.FieldChunkKeyCaches), mapof(ctx.FieldChunkCaches)
+//@   loop 0
+//@     invariant wfMGet(p) && !failed && count >= 0 && len(ret) == count && len(chooseIdxes) == count && bidx >= 0 && fresh(ret) && fresh(chooseIdxes) && fresh(filterBatch) && ascIdx(chooseIdxes, bidx)
+//@   loop 1
+//@     invariant wfMGet(p) && !failed && 0 <= i && i <= PlanBatchSize && len(filterBatch) <= i && fresh(filterBatch)
+//@     invariant count >= 0 && len(ret) == count && len(chooseIdxes) == count && bidx >= 0 && fresh(ret) && fresh(chooseIdxes) && ascIdx(chooseIdxes, bidx)
+//@   loop 2
+//@     invariant count >= 0 && len(ret) == count && len(chooseIdxes) == count && bidx >= 0 && fresh(ret) && fresh(chooseIdxes) && ascIdx(chooseIdxes, bidx) && len(matchs) == len(filterBatch)
